@@ -21,11 +21,15 @@ def enums():
 
 
 def note_of(d):
+    if d["k"] <= -1000:       # a player other than 0, carried in the keysound field as pitem() does (the rules never look at either)
+        return nc.build_note({**d, "p": -1000 - d["k"], "k": -1})
     return nc.build_note({"p": 0, **d})
 
 
 def pnote(x):
     d = nc.proj_note(x)
+    if d["p"] != 0:
+        d["k"] = -1000 - d["p"]          # as pitem(): a player other than 0 travels in the keysound field
     del d["p"]
     return d
 
@@ -141,8 +145,9 @@ def all_group_options(type_universe):
     return out
 
 
-def gen_stream(rng, max_notes=120):
-    """random single-player stream, deliberately ill-formed"""
+def gen_stream(rng, max_notes=120, players=False):
+    """random stream, deliberately ill-formed; players=True: half of the notes belong to players 1 / 2 (a merged
+    routine stream: joining pairs a head with the next tail IN ITS COLUMN, whoever's it is)"""
     cols = rng.randint(1, 6)
     rows = rng.choice([2, 4, 8, 16, 32, 64])
     dens = rng.choice([[1], [1, 2], [1, 2, 4], [3, 4], [48], [64], [96, 192], [256], [5, 7], [384], [48, 64]])
@@ -156,6 +161,8 @@ def gen_stream(rng, max_notes=120):
             if rng.random() < weights and len(out) < max_notes:
                 t = rng.choice(palette)
                 k = rng.choice([-1, -1, -1, 0, 3, 12]) if t != "3" else -1     # tails carry no keysound (C10's domain)
+                if players and rng.random() < 0.5:
+                    k = -1000 - rng.choice([1, 2])
                 out.append({"n": beat.numerator, "d": beat.denominator, "c": c, "t": ord(t), "k": k})
         beat += Fraction(1, rng.choice(dens))
     return out
